@@ -10,6 +10,11 @@ CLAIMED = {
    text='Exhaustive static comparison: for all 19 creator classes, the DDL statement list of the final overriders (read from the type-checked clang AST) is interpreted over a SQLite catalog model and compared object by object with the 57 reference dumps of the same version/variant; version constants, Information binds, to_string and the factory switch are cross-checked. Decides the schema-equality clause for every version that has a reference; a dropped/altered trigger, view, index, column or constraint in any creator is reported with the object name.',
    note='Trusted: clang 14 parser/Sema, the self-written SQL reader and catalog model (validated by C17 against the 358 verify_* expectation blocks), reference dumps as oracle. Not decided here: verify() acceptance (C17), detection on load (C13), behaviour of SQLite executing the DDL.',
    ref='DESIGN.md 4 C12'),
+ 'C13': dict(
+   technique='finite evaluation of the detection code (nested switch / if / ?: read from the clang AST) over an exhaustive box of version triples, layout truth table, dispatch table',
+   text='Exhaustive decision-table check without execution: detect_schema is evaluated structurally for every (major, minor, patch) in a box built from all case labels and their neighbours (the code compares version members only by equality - checked - so the box is exhaustive), each cell compared with the supported set read from engine_schema.hpp; the 1.18.0 variant marker is evaluated against the DDL of both 1.18.0 creators; detect_is_database2 over all 8 presence combinations; load/create/exists dispatch for every enumerator and layout, out-parameter assignment and handler types.',
+   note='Trusted: clang AST, the finite evaluator (sa/feval.py), SQLite returning the stored Information row. Known finding: triple 3.0.0 is accepted (pinned reference test requires it).',
+   ref='DESIGN.md 4 C13'),
 }
 
 NOT_APPLICABLE = {
